@@ -265,6 +265,8 @@ __CPROVER_ensures(RV.hh == hh && RV.mm == mm && RV.ss == ss)
 __CPROVER_ensures(RVVALID)
 __CPROVER_ensures(RVDAY == MONBASE(y, m) + (Z)d - 1 + (Z)cd)
 __CPROVER_ensures((1 <= m && m <= 12 && cd == 0 && 1 <= d && d <= 28) ? (RV.y == y && RV.m == m && RV.d == d) : 1)
+/* any month count: with nothing to carry out of the day, the result is the carried year / month with the day kept (used by step_month) */
+__CPROVER_ensures((cd == 0 && 1 <= d && d <= 28) ? ((Z)RV.y == NMON_Y1(y, m) && (int)RV.m == NMON_M1(m) && RV.d == d) : 1)
 __CPROVER_assigns();
 
 #define CARRYB ((diff_t)1 << 61)
@@ -446,6 +448,23 @@ Z __CPROVER_uninterpreted_osec(year_t y, int m, int d, int hh, int mm, int ss);
 #define lemma_trunc_REQ(n) (1)
 #define lemma_trunc_ENS(n) ((Z)(n) == 60 * (Z)((n) / 60) + (n) % 60 && (Z)(n) == 24 * (Z)((n) / 24) + (n) % 24 && (Z)(n) == 12 * (Z)((n) / 12) + (n) % 12 && \
                             -60 < (n) % 60 && (n) % 60 < 60 && -24 < (n) % 24 && (n) % 24 < 24 && -12 < (n) % 12 && (n) % 12 < 12)
+
+/* stepping by n months: the code's split n/12, n%12 cannot overflow the year, and carrying the month sum back into the year
+ * moves the month ordinal by exactly n */
+#define SM_Y(y, n) ((Z)(y) + (Z)((n) / 12))
+#define SM_M(m, n) ((Z)(m) + (Z)((n) % 12))
+#define lemma_stepmon_REQ(y, m, n) (1 <= (m) && (m) <= 12 && FITS64(FD((Z)12 * (y) + (m) - 1 + (Z)(n), 12)))
+#define lemma_stepmon_ENS(y, m, n) (FITS64(SM_Y(y, n)) && FITS64(SM_Y(y, n) + FD(SM_M(m, n) - 1, 12)) && \
+  (Z)12 * (SM_Y(y, n) + FD(SM_M(m, n) - 1, 12)) + FM(SM_M(m, n) - 1, 12) == (Z)12 * (y) + (m) - 1 + (Z)(n))
+/* the floor quotient by 12 is monotone */
+#define lemma_fd12_mono_REQ(a, b) (ZB(a, 100) && ZB(b, 100) && (Z)(a) <= (Z)(b))
+#define lemma_fd12_mono_ENS(a, b) (FD(a, 12) <= FD(b, 12))
+/* the month ordinal determines year and month */
+#define lemma_monord_inj_REQ(a, b) (1 <= (a).m && (a).m <= 12 && 1 <= (b).m && (b).m <= 12 && MONORD_F(a) == MONORD_F(b))
+#define lemma_monord_inj_ENS(a, b) ((a).y == (b).y && (a).m == (b).m)
+/* the representability bound of n_mon depends on (y, m) only through the carried year and month */
+#define lemma_nmonpre_carry_REQ(y, m, d, cd) (FITS64(NMON_Y1(y, m)) && NMON_PRE((year_t)NMON_Y1(y, m), (diff_t)(NMON_M1(m)), d, cd))
+#define lemma_nmonpre_carry_ENS(y, m, d, cd) (NMON_PRE(y, m, d, cd))
 
 fields step_second(fields f, diff_t n)
 __CPROVER_requires(OVALID(f) && REPR_second(OSEC(f) + n))
